@@ -102,6 +102,14 @@ impl Hooks for ModelHooks {
                         now.saturating_add(t)
                     ),
                 );
+                if CS_OP.with(|c| c.get()) == 3 {
+                    // "or hand it back to the caller when the timeout expires" is C09's clause
+                    self.inner.sched.violate(
+                        "C09",
+                        "send_waits_past_timeout",
+                        format!("a blocking send that must hand its item back by {dl:?} starts a wait of {t:?} at {now:?}"),
+                    );
+                }
             }
         }
         self.inner.condvar_wait(cv, timeout)
